@@ -222,6 +222,29 @@ fn cmd_deep(file: Option<&str>) -> i32 {
                 let _ = Compound::parse(&d).map(|c| format!("{c:?}").len());
             }
             let _ = Packet::parse(&d).is_ok();
+            // the FCI parsers called directly on the body, and their iterators walked to the end:
+            // a million zero entries (every per-entry cost, a stack frame included, a million times)
+            if d.len() > 12 {
+                use rtcp_types::{Fir, Nack, Sli};
+                let body = &d[12..];
+                if let Ok(f) = <Sli as FciParser>::parse(body) {
+                    let _ = f.lost_macroblocks().take(5 * body.len() + 32).count();
+                }
+                if let Ok(f) = <Nack as FciParser>::parse(body) {
+                    let _ = f.entries().take(5 * body.len() + 32).count();
+                }
+                if let Ok(f) = <Fir as FciParser>::parse(body) {
+                    let _ = f.entries().take(5 * body.len() + 32).count();
+                }
+            }
+            // a maximum-size SDES whose body is zeros (chunk walk, null-octet skipping)
+            if d.len() >= 262144 && d[4] == 0 {
+                let mut sd = d[..262144].to_vec();
+                sd[..4].copy_from_slice(&[0x81, 202, 0xff, 0xff]);
+                if let Ok(p) = rtcp_types::Sdes::parse(&sd) {
+                    let _ = p.chunks().take(5 * sd.len()).count();
+                }
+            }
         }
     };
     // the stack a main thread gets by default on Linux
